@@ -12,7 +12,7 @@ oracle:  model-free — every printed to_json line must (a) parse with Python's 
 """
 import collections, json, os, re, struct, subprocess
 import vlib
-from props import c01
+from props import c01, c17
 
 
 def collect(ctx):
@@ -36,6 +36,8 @@ def collect(ctx):
             d["expjson"] = vlib.unesc(r[2]) if len(r) > 2 else ""
         elif k == "EXPSTR":
             d["expstr"] = vlib.unesc(r[2]) if len(r) > 2 else ""
+        elif k == "DERIVED":
+            d["derived"] = r[2]
         elif k == "CORPUS":
             d["corpus"] = vlib.unesc(r[3]) if r[2] == "out" and len(r) > 3 else None
         elif k == "EXPECTREJECT":
@@ -180,7 +182,7 @@ def run(ctx):
     gc = c01.gocheck(ctx, [f"{pid}\t{d['stages']['go']}" for pid, d in gen.items() if "go" in d["stages"]])
 
     streams = collections.Counter()
-    n_nonfinite_wellformed = 0
+    n_nonfinite_wellformed = n_ast = n_ast_ok = 0
     n_ok = n_l1 = n_l1_ok = n_core_ok = n_json_lines = n_json_ok = n_str = n_str_ok = n_reader_agree = n_reader = 0
     samples, distinct = [], set()
     oracle_lines, oracle_meta = [], {}
@@ -193,6 +195,13 @@ def run(ctx):
             ctx.broken_ties.append(("model driver", f"{pid}: {m}"))
             continue
         want_out, accepted, scoped, scoped_old = vlib.unesc(m[1]), m[2] == "yes", m[3] == "yes", m[4] == "yes"
+        # ---- L1 on the derive itself: the impl blocks `derive::expand` appended vs the model's genString / genJson
+        if d.get("derived") not in (None, "none") and len(m) > 5:
+            n_ast += 1
+            if c17.sexp_parse(d["derived"]) == c17.sexp_parse(m[5]):
+                n_ast_ok += 1
+            else:
+                ctx.broken_ties.append(("model≠impl (generated impl AST)", f"{pid}: impl {d['derived'][:300]} model {m[5][:300]}"))
         if not accepted:
             ctx.broken_ties.append(("generator", f"{pid}: a definition in the accept stream is not accepted by the model"))
             continue
@@ -391,6 +400,13 @@ def run(ctx):
         else:
             ctx.report({"oracle": "accepted-unsupported", "kind": kind}, f"a definition the derive cannot handle ({kind}) is accepted", payload)
 
+    if ctx.replay:
+        try:
+            want = json.load(open(ctx.replay)).get("signature")
+            ctx.violations = [v for v in ctx.violations if v[0] == want]
+            ctx.notes.append(f"replay: the whole seeded run is repeated; only violations with signature {want} are reported")
+        except Exception as e:
+            ctx.broken_ties.append(("replay file", str(e)))
     ctx.violations.sort(key=lambda v: len(v[2].get("src") or "x" * 10**6))
     cov = {
         "evaluations": len(gen) + len(rej), "distinct_nontrivial": len(distinct) + n_rej_ok,
@@ -400,7 +416,8 @@ def run(ctx):
         "programs_by_stream": {f"{k[0]}:{k[1]}": v for k, v in sorted(streams.items())},
         "compiled": n_ok,
         "L1_text_comparisons": {"checked": n_l1, "equal_to_model": n_l1_ok, "core_under_Sem_equal": n_core_ok},
-        "model_diffs": n_l1 - n_l1_ok,
+        "L1_generated_impl_AST": {"programs": n_ast, "equal_to_model(genString/genJson)": n_ast_ok},
+        "model_diffs": (n_l1 - n_l1_ok) + (n_ast - n_ast_ok),
         "oracle_json_lines": {"checked": n_json_lines, "decode_to_value(python json vs serde_json)": n_json_ok,
                               "of_which_only_wellformed(non-finite float inside)": n_nonfinite_wellformed},
         "oracle_to_string": {"checked": n_str, "equal_to_join_rendering": n_str_ok},
